@@ -262,7 +262,7 @@ func (e *CrashEngine) Execute(p *sim.Plan, keepLog bool) (res *sim.RunResult) {
 	if errRef != nil {
 		// the target legitimately failed (nothing to edit...): nothing to enumerate
 		x.probe("target_failed_fault_free")
-		w.Log.Add("reference target error: %v", errRef)
+		w.Log.Note("reference target error: %v", errRef)
 		w.Log.EndStep("reference", true)
 		return res
 	}
@@ -351,7 +351,7 @@ func (e *CrashEngine) Execute(p *sim.Plan, keepLog bool) (res *sim.RunResult) {
 		}
 		if !crashed {
 			// the mutation sequence differed from the reference run (never expected)
-			w.Log.Add("case k=%d: crash point not reached (target err %v)", c.k, errT)
+			w.Log.Note("case k=%d: crash point not reached (target err %v)", c.k, errT)
 			x.probe("crash_point_not_reached")
 			w.Log.EndStep(fmt.Sprintf("case %d %s", c.k, c.torn), true)
 			continue
